@@ -411,3 +411,12 @@ package main
 //@     invariant kept: forall k string :: D0[k] ==> has(iniS.Fdict, k)
 //@     invariant false-is-old: forall k string :: has(iniS.Fdict, k) && !iniS.Fdict[k] ==> D0[k] && !V0[k] && (forall j int :: 0 <= j && j < i ==> ss[j] != k)
 //@     invariant old-false-stays: forall k string :: D0[k] && !V0[k] && (forall j int :: 0 <= j && j < i ==> ss[j] != k) ==> !iniS.Fdict[k]
+
+// OnParseError (deferred in transpileOne): when a panic is in flight it prints "<file>: <msg>" and
+// exits 1; it never swallows a panic (C16: a diagnostic and a non-zero exit, never a silent success).
+//@ func OnParseError
+//@   props C16
+//@   modifies glob:stdout glob:exitcode
+//@   panics iff glob(panicval) != zero(glob(panicval))
+//@   onpanic exit-code-1: glob(exitcode) == 1
+//@   onpanic diagnostic: glob(stdout) == old(glob(stdout)) + sprintf("%s: %s\n", fname, glob(panicval))
